@@ -174,12 +174,13 @@ func c06Deep(c *vlib.Ctx) {
 
 // C06: push delivery classification, bounded retry with backoff, DLQ.
 func C06(c *vlib.Ctx) {
-	c.Rule("the real PushDispatcher runs against a recording store wrapper (memory and SQLite, virtual clock jumped to the next due instant whenever the dispatcher is idle) and a scripted deliverer. (1) table sweep: every status 100-599 and the error kinds net/timeout/policy, retry.max 1 and 3, every attempt 1..max+1 (the finite classification table, enumerated completely: see table_cells); (2) generated per-target behaviour sequences with recovery, 1-3 targets, concurrency 1-8, generated retry configs (max 1-12, base<=cap, jitter 0/0.2/0.5/1), DLQ requeue cycles, injected lease-mutation failures; (2b) generated configuration files (defaults.deliver.retry and per-deliver retry directives with any subset of max/base/cap/jitter, 1-3 routes of 1-3 deliver blocks) compiled and mapped to dispatcher routes by the production code, each target judged by the retry configuration derived from the text alone; (3) a real-HTTP sample of HTTPDeliverer against local servers. Each delivery's settlement, nack delay, next offer time and attempt record are compared with an independent table. distinct_nontrivial = distinct (result, attempt-vs-max, expected action) classes.")
+	c.Rule("the real PushDispatcher runs against a recording store wrapper (memory and SQLite, virtual clock jumped to the next due instant whenever the dispatcher is idle) and a scripted deliverer. (1) table sweep: every status 100-599 and the error kinds net/timeout/policy, retry.max 1 and 3, every attempt 1..max+1 (the finite classification table, enumerated completely: see table_cells); (2) generated per-target behaviour sequences with recovery, 1-3 targets, concurrency 1-8, generated retry configs (max 1-12, base<=cap, jitter 0/0.2/0.5/1), DLQ requeue cycles, injected lease-mutation failures; (2b) generated configuration files (defaults.deliver.retry and per-deliver retry directives with any subset of max/base/cap/jitter, 1-3 routes of 1-3 deliver blocks) compiled and mapped to dispatcher routes by the production code, each target judged by the retry configuration derived from the text alone; (2c) retry settings edited (max raised / lowered in the deliver block or in defaults.deliver, directive added / removed, base and cap) and reloaded through the production wiring with its dispatcher: a message to a target answering 503 must see the number of requests and the DLQ reason of a fresh start of the configuration reported as running; (3) a real-HTTP sample of HTTPDeliverer against local servers. Each delivery's settlement, nack delay, next offer time and attempt record are compared with an independent table. distinct_nontrivial = distinct (result, attempt-vs-max, expected action) classes.")
 	c.Assume("the attempt bound and the terminal-state clause are asserted only in scenarios without injected store failures, as the quantifier says")
 	c06Table(c)
 	c06Random(c)
 	c06Deep(c)
 	c06Compiled(c)
+	c06RetryReload(c)
 	c06HTTP(c)
 	c06Wire(c)
 	// an egress-policy denial raised at a redirect hop is still a policy denial:
